@@ -64,10 +64,10 @@ DictStyle == {"json_dq", "dict_sq", "dict_u", "json_tight"}
 \* character classes of a secret; each regex metacharacter is its own class
 Meta == {"dot", "star", "plus", "qmark", "caret", "dollar", "lparen", "rparen", "lbrack", "rbrack",
          "lbrace", "rbrace", "pipe", "backslash"}
-Classes == {"letter", "digit", "nonascii", "punct", "equals", "lt", "space", "tab"} \cup Meta
+Classes == {"letter", "digit", "nonascii", "punct", "equals", "lt", "space", "tab", "newline"} \cup Meta
 \* which classes a rendering can carry: never a quote; white space only inside
 \* quoted / XML renderings; "--k v" stops at '='; XML stops at '<'
-Carries(r, c) == /\ (c \in {"space", "tab"} => r \in Quoted \cup {"xml"})
+Carries(r, c) == /\ (c \in {"space", "tab", "newline"} => r \in Quoted \cup {"xml"})
                  /\ (c = "equals" => r # "opt")
                  /\ (c = "lt" => r # "xml")
 
@@ -92,7 +92,7 @@ SecretShapes == {<<c>> : c \in Classes}
 OkSecret(r, sec) == \A i \in 1..Len(sec) : Carries(r, sec[i])
                     \* a secret does not start or end with white space (it would be
                     \* indistinguishable from the rendering's own padding)
-                    /\ sec[1] \notin {"space", "tab"} /\ sec[Len(sec)] \notin {"space", "tab"}
+                    /\ sec[1] \notin {"space", "tab", "newline"} /\ sec[Len(sec)] \notin {"space", "tab", "newline"}
 
 \* families of messages
 Alone == {<<Field(k, sp, r, s)>> : k \in Keys, sp \in Spellings, r \in Renderings,
